@@ -29,3 +29,21 @@ pub use utils::error::{Error, Result};
 // Tiered storage types (feature-gated)
 #[cfg(feature = "tiered-storage")]
 pub use mvcc::{ColdVersionRef, HotVersionRef, OptionalEpochId, VersionIndex, VersionRef};
+
+/// Verification builds only (`cargo kani`): scheduling point for sequentialised concurrency checks.
+/// A harness installs a function that may run another thread's pending operation at this point
+/// (between two critical sections of the operation that calls `verif_yield`).
+#[cfg(kani)]
+#[allow(unsafe_code)]
+pub static mut VERIF_YIELD: Option<fn(u32)> = None;
+
+/// Verification builds only: see [`VERIF_YIELD`].
+#[cfg(kani)]
+#[allow(unsafe_code)]
+pub fn verif_yield(site: u32) {
+    // SAFETY: verification harnesses are single-threaded
+    let hook = unsafe { VERIF_YIELD };
+    if let Some(f) = hook {
+        f(site);
+    }
+}
